@@ -495,7 +495,11 @@ def run(ctx):
     selftest(ctx)
     run_apply(ctx, res.records)
     run_traces(ctx)
-    ctx.exhaustive = True
+    # the mask applications are enumerated completely; the recorded draws are a grid of configurations
+    # with seeded / stubbed randomness
+    ctx.exhaustive = False
+    ctx.extra["exhaustive_parts"] = ["TLC: draw bounds, tightness, mask semantics, linear grid abstraction",
+                                     "replay: every in-bounds mask parameter vector of the apply universe"]
 
 
 def replay(ctx, case):
